@@ -51,6 +51,40 @@ Theorem C09_conforming : forall cfg mechs m r cmax fmax hb,
 Proof. exact conforming_outputs. Qed.
 Print Assumptions C09_conforming.
 
+(* EVERY frame sequence on channel 0 (adversarial broker included: any order,
+   repetitions, frames out of turn).  Each frame the client writes is justified:
+   a StartOk answers a Start that was received and carries the mechanism and
+   response chosen from that offer; a TuneOk carries the values negotiated from
+   a Tune that was received and the configured heartbeat; an Open names the
+   configured virtual host. *)
+Theorem C09_outputs_justified : forall cfg frames,
+  Forall (out_justified cfg frames) (h_out (ch0_run cfg frames)).
+Proof. exact outputs_justified. Qed.
+Print Assumptions C09_outputs_justified.
+
+(* ... hence no TuneOk ever leaves the client's limits, for every sequence
+   whose Tune offers are non-negative (they are unsigned on the wire). *)
+Theorem C09_tune_answers_bounded : forall cfg frames,
+  Forall (fun f => match f with ITune cm fm _ => 0 <= cm /\ 0 <= fm | _ => True end) frames ->
+  Forall (fun o => match o with
+                   | OTuneOk c f hb => 0 < c <= 65535 /\ 0 < f <= 131072 /\ hb = c_heartbeat cfg
+                   | _ => True end) (h_out (ch0_run cfg frames)).
+Proof. exact tune_answers_bounded. Qed.
+Print Assumptions C09_tune_answers_bounded.
+
+(* No refusal is lost, whatever else the broker sends before or after it: the
+   code of every Connection.Close other than 200 is among the recorded errors
+   at the end of the sequence, and so is the failure to find a mechanism. *)
+Theorem C09_refusal_code_recorded : forall cfg frames code,
+  In (IClose code) frames -> code <> 200 -> In (Some code) (h_errs (ch0_run cfg frames)).
+Proof. exact refusal_code_recorded. Qed.
+Print Assumptions C09_refusal_code_recorded.
+
+Theorem C09_no_mechanism_recorded : forall cfg frames mechs,
+  In (IStart mechs) frames -> start_ok cfg mechs = None -> In None (h_errs (ch0_run cfg frames)).
+Proof. exact no_mechanism_recorded. Qed.
+Print Assumptions C09_no_mechanism_recorded.
+
 (* Whole observable of Connection.open() for every offer, configuration and
    refusal (Connection.Close(code) / drop / silence at any of the three steps). *)
 Theorem C09_open : forall i, open_wf i -> open_prop_ok i (open_model i) = true.
